@@ -115,10 +115,21 @@ func renderAccept(rs []AccRange, withWS bool) string {
 	return sb.String()
 }
 
-// expectedType is the reference ranking of the statement.
-func expectedType(produces []string, rs []AccRange) (string, bool) {
+// expectedType is the reference ranking of the statement over the produced types that have a
+// registered writer. admitted: the router admits the header (some range names a produced type
+// or is */*). decided: the ranking selects a type with a writer; when the header only ranks
+// produced types without a writer the statement leaves the choice open (any produced type
+// with a writer, never 406).
+func expectedType(produces []string, rs []AccRange, isReg map[string]bool) (want string, admitted, decided bool) {
+	firstReg := ""
+	for _, p := range produces {
+		if isReg[p] {
+			firstReg = p
+			break
+		}
+	}
 	if len(rs) == 0 {
-		return produces[0], true // no Accept header = */*
+		return firstReg, true, true // no Accept header = */*
 	}
 	idx := make([]int, len(rs))
 	for i := range idx {
@@ -128,18 +139,28 @@ func expectedType(produces []string, rs []AccRange) (string, bool) {
 	for _, i := range idx {
 		m := rs[i].Media
 		if m == "*/*" {
-			return produces[0], true
+			admitted = true
+			if !decided {
+				want, decided = firstReg, true
+			}
+			continue
 		}
 		for _, p := range produces {
 			if p == m {
-				return p, true
+				admitted = true
+				if isReg[p] && !decided {
+					want, decided = p, true
+				}
 			}
 		}
 	}
-	return "", false
+	return want, admitted, decided
 }
 
-var foreignTypes = []string{"text/html", "image/*", "text/csv", "application/pdf", "image/webp"}
+var foreignTypes = []string{"text/html", "image/*", "application/pdf", "image/webp"}
+
+// produced types for which no entity writer is registered in any configuration
+var unregisteredTypes = []string{"text/csv", "text/plain"}
 
 func genC05(t *rapid.T) C05Case {
 	reg := setupRegistry()
@@ -149,11 +170,21 @@ func genC05(t *rapid.T) C05Case {
 	}
 	n := rapid.IntRange(1, min(3, len(reg))).Draw(t, "nproduces")
 	perm := rapid.Permutation(append([]string{}, reg...)).Draw(t, "producesorder")
-	c.Produces = perm[:n]
+	c.Produces = append([]string{}, perm[:n]...)
+	if rapid.IntRange(0, 3).Draw(t, "unregistered") == 0 {
+		// a produced type nobody registered a writer for, next to registered ones
+		pos := rapid.IntRange(0, len(c.Produces)).Draw(t, "unregpos")
+		u := rapid.SampledFrom(unregisteredTypes).Draw(t, "unregtype")
+		c.Produces = append(c.Produces[:pos], append([]string{u}, c.Produces[pos:]...)...)
+	}
+	hasUnreg := len(c.Produces) > n
 	c.Default = rapid.SampledFrom([]string{"", "", restful.MIME_JSON, restful.MIME_XML}).Draw(t, "default")
+	if hasUnreg {
+		c.Default = ""
+	}
 	c.Pretty = rapid.Bool().Draw(t, "pretty")
 	c.Via = rapid.SampledFrom([]string{harness.ViaDispatch, harness.ViaServe}).Draw(t, "via")
-	nr := rapid.SampledFrom([]int{0, 1, 1, 2, 2, 3, 3, 4, 5, 6}).Draw(t, "nranges")
+	nr := rapid.SampledFrom([]int{0, 1, 1, 2, 2, 3, 3, 4, 5, 6, 9, 13, 14, 16, 20, 30}).Draw(t, "nranges")
 	qs := []string{"", "", "1", "0.9", "0.8", "0.8", "0.5", "0.1", "0.001", "1.0", "0.50"}
 	for i := 0; i < nr; i++ {
 		var r AccRange
@@ -190,6 +221,7 @@ type c05Entity struct {
 
 func checkC05(c C05Case) (vs []*Violation) {
 	st := stats.For("C05", "TestC05")
+	var labels0 []string
 	reg := setupRegistry()
 	isReg := setOf(reg)
 	cur := os.Getenv("VERIF_REGISTRY")
@@ -201,10 +233,20 @@ func checkC05(c C05Case) (vs []*Violation) {
 		st.Label("replay_skipped_other_registry", 1)
 		return nil
 	}
+	anyReg := false
 	for _, p := range c.Produces {
-		if !isReg[p] {
+		if isReg[p] {
+			anyReg = true
+		} else if p != unregisteredTypes[0] && p != unregisteredTypes[1] {
 			return []*Violation{viol("", "case uses %q which is not registered in this process (VERIF_REGISTRY=%s)", p, os.Getenv("VERIF_REGISTRY"))}
+		} else {
+			labels0 = append(labels0, "produces_with_unregistered_type")
 		}
+	}
+	if !anyReg || (len(labels0) > 0 && c.Default != "") {
+		// produced types without a writer are an extension of the stated quantifier; they are
+		// only combined with an unset default content type, where the statement still decides
+		return nil
 	}
 	restful.DefaultResponseContentType(c.Default)
 	restful.PrettyPrintResponses = c.Pretty
@@ -218,11 +260,16 @@ func checkC05(c C05Case) (vs []*Violation) {
 	}))
 	ct.Add(ws)
 
-	labels := []string{"registry_" + c.Registry, "produces_" + strconv.Itoa(len(c.Produces)), "ranges_" + strconv.Itoa(min(len(c.Accept), 4))}
-	want, admitted := expectedType(c.Produces, c.Accept)
+	labels := append(labels0, "registry_"+c.Registry, "produces_"+strconv.Itoa(len(c.Produces)), "ranges_"+strconv.Itoa(min(len(c.Accept), 13)))
+	want, admitted, decided := expectedType(c.Produces, c.Accept, isReg)
 	if !admitted {
 		st.Case(c, false, append(labels, "not_admitted_by_accept")...)
 		// outside the domain of the entity-writer statement; the router must refuse (C02's business)
+		return nil
+	}
+	if !decided {
+		// the header ranks only produced types that have no writer: outside the stated domain
+		st.Case(c, false, append(labels, "only_unregistered_types_ranked")...)
 		return nil
 	}
 	hdrs := []string{renderAccept(c.Accept, true)}
@@ -256,13 +303,13 @@ func checkC05(c C05Case) (vs []*Violation) {
 				vs = append(vs, viol("", "%s: status %d", where, o.Status))
 				break
 			}
-			if got != want {
-				inProduces := false
-				for _, p := range c.Produces {
-					if p == got {
-						inProduces = true
-					}
+			inProduces := false
+			for _, p := range c.Produces {
+				if p == got && isReg[p] {
+					inProduces = true
 				}
+			}
+			if got != want {
 				sig := ""
 				if len(c.Accept) == 0 && c.Default != "" && got == c.Default && !inProduces {
 					sig = "D4"
